@@ -2,9 +2,9 @@ package main
 
 import (
 	"errors"
-	"net"
 	"fmt"
 	"math/rand"
+	"net"
 	"sort"
 	"time"
 
